@@ -248,7 +248,7 @@ func Finish(verifDir string, res *Result, tier string, seed int64, started time.
 		"wall_s":      time.Since(started).Seconds(),
 		"violations":  len(fresh),
 	}
-	if ev["assumptions"] == nil {
+	if len(res.Assumptions) == 0 {
 		ev["assumptions"] = []string{}
 	}
 	_ = os.MkdirAll(filepath.Join(verifDir, "evidence"), 0o755)
